@@ -96,13 +96,13 @@ func (c06) Gen(rt *rapid.T, thorough bool) any {
 		return s
 	}
 	s.Knobs.Watch = []string{":range"}
-	if k := rapid.IntRange(0, 9).Draw(rt, "contention6"); k < 2 {
+	if k := rapid.IntRange(0, 9).Draw(rt, "contention6"); k < 2 || k >= 8 {
 		// contention preset: many producers on a full buffer whose worker is held for the whole
 		// phase, a scheduling choice at every step - the evict-and-retry loops race each other
 		s.Policy, s.Gate, s.Restart = "DiscardOldest", 2, false
 		s.Knobs.Dense, s.Knobs.Strategy, s.Knobs.Starve = true, 0, nil
 		s.Prefill = s.BufferSize + 1
-		np := rapid.IntRange(6, 12).Draw(rt, "contention_producers6")
+		np := rapid.IntRange(8, 12).Draw(rt, "contention_producers6")
 		for p := 0; p < np; p++ {
 			var ops []AOp
 			for i := 0; i < 240/np; i++ {
